@@ -127,6 +127,21 @@ Fixpoint replace_dslash (l : str) : str :=
 
 Definition max_pos (l : list (nat * str)) : nat := fold_right (fun x m => Nat.max (fst x) m) 0 l.
 
+(* the second half of the function: chain, range test, insertion loop, gluing.  count = number of carbons named, sub =
+   carbons that go into the branched end, mods = None when building the list raised *)
+Definition assemble (count sub : nat) (end_ : str) (has_parts : bool) (mods : option (list (nat * str))) : option str :=
+  if count <? sub + 1 then None else          (* "C" * negative is "", the result is no acyl group: not modelled *)
+  let chain := repeat "C"%char (count - sub - 1) in
+  if negb has_parts then Some (replace_dslash (s2l "OC(=O)" ++ chain ++ end_))
+  else match mods with
+       | None => None
+       | Some [] => None                                     (* max() of an empty list *)
+       | Some mods =>
+           if length chain <? max_pos mods - 1 then None
+           else if existsb (fun x => Nat.eqb (fst x) 0) mods then None      (* pos - 1 = -1: slices from the end, not modelled *)
+           else Some (replace_dslash (s2l "OC(=O)" ++ fold_left (fun ch x => insert_at (fst x - 1) (snd x) ch) (sort_desc mods) chain ++ end_))
+       end.
+
 Definition parse_poly_carbon (name : str) : option str :=
   let ante := nth_is 1 name "a" in
   let iso := nth_is (if ante then 2 else 1) name "i" in
@@ -136,18 +151,6 @@ Definition parse_poly_carbon (name : str) : option str :=
       let count := str2nat cnt in
       if ante && negb iso then None else
       let '(end_, sub) := if ante && iso then (s2l "(C)CC", 3) else if iso then (s2l "(C)C", 2) else ([], 0) in
-      if count <? sub + 1 then None else          (* "C" * negative is "", the result is no acyl group: not modelled *)
-      let chain := repeat "C"%char (count - sub - 1) in
-      match groups name with
-      | [] => Some (replace_dslash (s2l "OC(=O)" ++ chain ++ end_))
-      | parts =>
-          match seq_opt (map (part_mods name) parts) with
-          | None => None
-          | Some [] => None                                     (* max() of an empty list *)
-          | Some mods =>
-              if length chain <? max_pos mods - 1 then None
-              else if existsb (fun x => Nat.eqb (fst x) 0) mods then None      (* pos - 1 = -1: slices from the end, not modelled *)
-              else Some (replace_dslash (s2l "OC(=O)" ++ fold_left (fun ch x => insert_at (fst x - 1) (snd x) ch) (sort_desc mods) chain ++ end_))
-          end
-      end
+      let parts := groups name in
+      assemble count sub end_ (match parts with [] => false | _ => true end) (seq_opt (map (part_mods name) parts))
   end.
